@@ -50,7 +50,7 @@ def compare(script_path, impl_path, model_path, max_report=50):
                 res['declined'] += 1
             else:
                 res['compared'] += 1
-                bad = [k for k in set(I) | set(M) if I.get(k) != M.get(k)]
+                bad = [k for k in set(I) | set(M) if not k.startswith('_') and I.get(k) != M.get(k)]
                 if bad:
                     if len(res['i_ne_m']) < max_report:
                         res['i_ne_m'].append((ln, sline.strip(), iline, mline, ','.join(sorted(bad))))
